@@ -107,6 +107,9 @@ func (f *GraphqlQuery) Call(s *slip.Scope, args slip.List, depth int) slip.Objec
 	client := &http.Client{}
 	for i := 0; i < len(args); i += 2 {
 		if key, ok := args[i].(slip.Symbol); ok && 1 < len(key) && key[0] == ':' {
+			if len(args) <= i+1 {
+				slip.ErrorPanic(s, depth, "%s missing an argument", key)
+			}
 			ns.Let(key[1:], args[i+1])
 			switch key {
 			case slip.Symbol(":template-args"):
